@@ -24,13 +24,15 @@ TEXT ·L1NormInc(SB), NOSPLIT, $0
 	PXOR  X7, X7
 	CMPQ  CX, $0           // if CX == 0 { return 0 }
 	JE    absum_end
+	PCMPEQL X12, X12       // X12 = abs mask: all bits but the sign bits
+	PSRLQ   $1, X12
 	MOVQ  CX, BX
 	ANDQ  $7, BX           // BX = n % 8
 	SHRQ  $3, CX           // CX = floor( n / 8 )
 	JZ    absum_tail_start // if CX == 0 { goto absum_tail_start }
 
 absum_loop: // do {
-	// p_sum = max( p_sum + x[i], p_sum - x[i] )
+	// p_sum += abs( x[i] )
 	MOVSD  (SI), X8        // X_i[0] = x[i]
 	MOVSD  (SI)(AX*1), X9
 	MOVSD  (SI)(AX*2), X10
@@ -40,29 +42,21 @@ absum_loop: // do {
 	MOVHPD (SI)(AX*1), X9
 	MOVHPD (SI)(AX*2), X10
 	MOVHPD (SI)(DX*1), X11
-	ADDPD  X8, X0          // p_sum_i += X_i  ( positive values )
+	ANDPD  X12, X8         // X_i = abs( X_i )
+	ANDPD  X12, X9
+	ANDPD  X12, X10
+	ANDPD  X12, X11
+	ADDPD  X8, X0          // p_sum_i += X_i
 	ADDPD  X9, X2
 	ADDPD  X10, X4
 	ADDPD  X11, X6
-	SUBPD  X8, X1          // p_sum_(i+1) -= X_i  ( negative values )
-	SUBPD  X9, X3
-	SUBPD  X10, X5
-	SUBPD  X11, X7
-	MAXPD  X1, X0          // p_sum_i = max( p_sum_i, p_sum_(i+1) )
-	MAXPD  X3, X2
-	MAXPD  X5, X4
-	MAXPD  X7, X6
-	MOVAPS X0, X1          // p_sum_(i+1) = p_sum_i
-	MOVAPS X2, X3
-	MOVAPS X4, X5
-	MOVAPS X6, X7
 	LEAQ   (SI)(AX*4), SI  // SI = SI + 4
 	LOOP   absum_loop      // } while --CX > 0
 
 	// p_sum_0 = \sum_{i=1}^{3}( p_sum_(i*2) )
-	ADDPD X3, X0
-	ADDPD X5, X7
-	ADDPD X7, X0
+	ADDPD X2, X0
+	ADDPD X4, X6
+	ADDPD X6, X0
 
 	// p_sum_0[0] = p_sum_0[0] + p_sum_0[1]
 	MOVAPS X0, X1
@@ -76,12 +70,10 @@ absum_tail_start: // Reset loop registers
 	XORPS X8, X8 // X_8 = 0
 
 absum_tail: // do {
-	// p_sum += max( p_sum + x[i], p_sum - x[i] )
+	// p_sum += abs( x[i] )
 	MOVSD (SI), X8   // X_8 = x[i]
-	MOVSD X0, X1     // p_sum_1 = p_sum_0
+	ANDPD X12, X8    // X_8 = abs( X_8 )
 	ADDSD X8, X0     // p_sum_0 += X_8
-	SUBSD X8, X1     // p_sum_1 -= X_8
-	MAXSD X1, X0     // p_sum_0 = max( p_sum_0, p_sum_1 )
 	ADDQ  AX, SI     // i++
 	LOOP  absum_tail // } while --CX > 0
 
